@@ -8,7 +8,7 @@ git -C /repo worktree add --detach "$WT" "${BASE:-HEAD}" -q || exit 3
 if [ "$PATCH" != "none" ]; then git -C "$WT" apply "$PATCH" || { echo "PATCH DOES NOT APPLY"; git -C /repo worktree remove --force "$WT"; exit 3; }; fi
 rc=0
 for c in "$@"; do
-  VERIF_REPO="$WT" /verif/check "$c" --tier "${TIER:-quick}" 2>&1 | grep -v "^  \.\. " | grep -E "^(C[0-9]+ tier|VIOLATION|KNOWN|HARNESS|CAP|  )" | cut -c1-400 | head -${LINES_MAX:-12}
+  VERIF_REPO="$WT" /verif/check "$c" --tier "${TIER:-quick}" 2>&1 | grep -v "^  \.\. " | grep -v "RuntimeWarning\|log_read_prob" | grep -E "^(C[0-9]+ tier|VIOLATION|KNOWN|HARNESS|CAP|  )" | cut -c1-400 | head -${LINES_MAX:-12}
 done
 git -C /repo worktree remove --force "$WT"
 # drop the numba cache of the mutated tree
